@@ -51,6 +51,9 @@ deriving Repr
 structure RState extends State where
   oracle : List Choice := []
   ghost : List Ghost := []
+  /-- the local `turn_moved` of `consume` / `handle_device_payload`: logs of the shared groups
+      whose turn passed to another member during the current call; empty between steps -/
+  turnMoved : List Nat := []
 
 def RState.g (s : RState) (e : Ghost) : RState := { s with ghost := s.ghost ++ [e] }
 
@@ -119,6 +122,13 @@ def trackerNoDup (t : Tracker) : Bool :=
 
 def DataLog.filterIdx? (d : DataLog) (filter : String) : Option Nat := alookup filter d.filterIndexes
 
+/-- machine-readable tail of a `badChoice` message: how many recorded choices were still unread,
+    whether the first of them is of the expected kind (and inadmissible) or of another kind / absent,
+    and an admissible choice (tab-separated). Only the driver reads it, to keep the monitors going
+    on the model's own choice after the disagreement has been reported. -/
+def choiceHint (unread : Nat) (sameKind : Bool) (fix : List String) : String :=
+  s!" ##hint {unread} {if sameKind then 1 else 0} " ++ "\t".intercalate fix
+
 /-- `DataLog::matches`; always `Some` in the Rust -/
 def dlMatches (s : RState) (topic : String) : M (RState × List Nat) :=
   match alookup topic s.datalog.publishFilters with
@@ -131,8 +141,8 @@ def dlMatches (s : RState) (topic : String) : M (RState × List Nat) :=
         let d := s.datalog
         let d := if v.isEmpty then d else { d with publishFilters := d.publishFilters ++ [(topic, v)] }
         .ok ({ s with datalog := d, oracle := rest }, v)
-      else .error (.badChoice s!"matches order {v} is not a permutation of {expected}")
-    | _ => .error (.badChoice "expected a matches choice")
+      else .error (.badChoice (s!"matches order {v} is not a permutation of {expected}" ++ choiceHint s.oracle.length true ("matches" :: expected.map toString)))
+    | _ => .error (.badChoice ("expected a matches choice" ++ choiceHint s.oracle.length false ("matches" :: expected.map toString)))
 
 /-- `DataLog::next_native_offset` -/
 def nextNativeOffset (s : RState) (filter : String) : RState × Nat × Cursor :=
@@ -297,8 +307,8 @@ def updateNextClient (s : RState) (g : SharedGroup) : M (RState × SharedGroup) 
     else match s.oracle with
       | .random n :: rest =>
         if n < g.clients.length then .ok ({ s with oracle := rest }, { g with idx := n })
-        else .error (.badChoice "random index out of range")
-      | _ => .error (.badChoice "expected a random choice")
+        else .error (.badChoice ("random index out of range" ++ choiceHint s.oracle.length true ["random", "0"]))
+      | _ => .error (.badChoice ("expected a random choice" ++ choiceHint s.oracle.length false ["random", "0"]))
 
 /-! ### outgoing -/
 
@@ -325,6 +335,21 @@ def Outgoing.registerPubcomp (o : Outgoing) (pkid : Nat) : Outgoing × Bool :=
   | [] => (o, false)
   | h :: rest => if h = pkid then ({ o with unackedPubrels := rest }, true) else (o, false)
 
+/-- `forget_cursors`: the window entries of a filter index lose their cursor (the subscription
+    has ended: they no longer define a resume point); ids and order stay -/
+def Outgoing.forgetCursors (o : Outgoing) (fi : Nat) : Outgoing :=
+  { o with inflight := o.inflight.map (fun e => if e.2.1 = fi then (e.1, e.2.1, none) else e) }
+
+/-- the path whose log a subscription reads: `$share/<group>/<path>` reads the log of `<path>` -/
+def logPath (f : String) : String := match extractGroup f with | some (_, p) => p | none => f
+
+/-- the window after `filter` was unsubscribed (`subs`: the subscriptions that remain) -/
+def unsubOut (d : DataLog) (subs : List String) (out : Outgoing) (filter : String) : Outgoing :=
+  if subs.any (fun g => logPath g == logPath filter) then out else
+  match d.filterIdx? (logPath filter) with
+  | none => out
+  | some fi => out.forgetCursors fi
+
 /-- `retransmission_map`: first cursor per filter index among inflight entries that have one -/
 def retransmissionMap : List (Nat × Nat × Option Cursor) → List (Nat × Cursor) → List (Nat × Cursor)
   | [], acc => acc
@@ -349,6 +374,13 @@ def BrokerAliases.new (max : Nat) : BrokerAliases :=
 
 /-! ### disconnection -/
 
+/-- the request of a shared subscription continues where its group is when the member leaves
+    (`group_cursors`, taken before the member is removed from its groups) -/
+def atGroupCursor (sh : List (String × SharedGroup)) (r : DataRequest) : DataRequest :=
+  match r.group.bind (fun g => alookup g sh) with
+  | some grp => { r with cursor := grp.cursor }
+  | none => r
+
 /-- restore cursors of the saved tracker from the retransmission map -/
 def rewindRequests (sh : List (String × SharedGroup)) (retx : List (Nat × Cursor)) :
     List DataRequest → List DataRequest → List (String × SharedGroup) × List DataRequest
@@ -365,6 +397,47 @@ def rewindRequests (sh : List (String × SharedGroup)) (retx : List (Nat × Curs
         | none => rewindRequests sh retx rest (acc ++ [r'])   -- group already gone (last member)
         | some grp => rewindRequests (ainsert g { grp with cursor := c } sh) retx rest (acc ++ [r'])
 
+/-- the logs of the groups that stay when `client` leaves all groups and whose turn passes to
+    another member by that (`handle_disconnection`; group key `<share>/<path>`) -/
+def turnMovedLogs (d : DataLog) (sh : List (String × SharedGroup)) (client : String) : List Nat :=
+  sh.flatMap (fun p =>
+    let g' := p.2.removeClient client
+    if !g'.clients.isEmpty && g'.current != p.2.current then
+      match extractGroup ("$share/" ++ p.1) with
+      | some (_, path) => (d.filterIdx? path).toList
+      | none => []
+    else [])
+
+/-- wake the parked consumers (`while let Some((id, request)) = self.notifications.pop_front()`) -/
+def drainNotifications (s : RState) : List (Nat × DataRequest) → M RState
+  | [] => .ok s
+  | (id, r) :: rest =>
+    match track s id r with
+    | .error e => .error e
+    | .ok s =>
+      match reschedule s id .freshData with
+      | .error e => .error e
+      | .ok s => drainNotifications s rest
+
+/-- `wake_parked` after `logs.sort_unstable(); logs.dedup()`: the requests parked on each of these
+    logs are tracked again and their connections rescheduled, as after an append -/
+def wakeParkedSorted (s : RState) : List Nat → M RState
+  | [] => .ok s
+  | i :: rest =>
+    match s.datalog.native[i]? with
+    | none => wakeParkedSorted s rest
+    | some fd =>
+      let s1 : RState := { s with datalog := { s.datalog with native := s.datalog.native.set i { fd with waiters := [] } } }
+      match drainNotifications s1 fd.waiters with
+      | .error e => .error e
+      | .ok s2 => wakeParkedSorted s2 rest
+
+def wakeParked (s : RState) (logs : List Nat) : M RState :=
+  wakeParkedSorted s (logs.mergeSort (fun a b => a ≤ b)).eraseDups
+
+/-- end of a call that collected `turnMoved`: wake, and the local is gone -/
+def wakeTurnMoved (s : RState) : M RState := wakeParked { s with turnMoved := [] } s.turnMoved
+
 /-- `handle_disconnection(id, reason)` -/
 def handleDisconnection (s : RState) (id : Nat) (reason : Option String) : M RState :=
   match getConn s id with
@@ -378,19 +451,22 @@ def handleDisconnection (s : RState) (id : Nat) (reason : Option String) : M RSt
     let (dl, inflightReqs) := datalogClean s.datalog id
     let s := { s with datalog := dl }
     let retx := retransmissionMap c.out.inflight []
+    let movedLogs := turnMovedLogs s.datalog s.shared c.clientId
+    let groupsBefore := s.shared
     let s := { s with shared := removeFromGroups s.shared c.clientId }
     let smap := s.subscriptionMap.map (fun (p : String × List Nat) =>
       if c.subscriptions.contains p.1 then (p.1, p.2.filter (· ≠ id)) else p)
     let s := { s with subscriptionMap := smap }
     if !c.clean then
-      let (sh, reqs) := rewindRequests s.shared retx (c.tracker.requests ++ inflightReqs) []
+      let (sh, reqs) := rewindRequests s.shared retx ((c.tracker.requests ++ inflightReqs).map (atGroupCursor groupsBefore)) []
       let t : Tracker := { c.tracker with requests := reqs, status := .paused .busy }
-      .ok { s with shared := sh,
-                   graveyard := ainsert c.clientId
-                     (some { tracker := t, subscriptions := c.subscriptions,
-                             unackedPubrels := c.out.unackedPubrels }) s.graveyard }
+      let saved : SessionState := { tracker := t, subscriptions := c.subscriptions, unackedPubrels := c.out.unackedPubrels }
+      let s : RState := { s with shared := sh, graveyard := ainsert c.clientId (some saved) s.graveyard }
+      -- the turn of some groups passed to another member, which may be parked
+      wakeParked s movedLogs
     else
-      .ok { s with graveyard := ainsert c.clientId none s.graveyard }
+      let s : RState := { s with graveyard := ainsert c.clientId none s.graveyard }
+      wakeParked s movedLogs
 
 /-! ### new connection -/
 
@@ -403,6 +479,23 @@ structure ConnectSpec where
   will : Option Will
 
 def validClientId (c : String) : Bool := !("+$#/".toList.any (fun ch => c.toList.contains ch))
+
+/-- `shared_subscriptions.entry(group).or_insert(SharedGroup::new(request.cursor, strategy)).add_client(client)`
+    for every restored request of a shared subscription -/
+def rejoinGroups (strategy : Strategy) (client : String) : List DataRequest → List (String × SharedGroup) → List (String × SharedGroup)
+  | [], sh => sh
+  | r :: rest, sh =>
+    match r.group with
+    | none => rejoinGroups strategy client rest sh
+    | some g =>
+      let grp := (alookup g sh).getD { cursor := r.cursor, strategy := strategy }
+      rejoinGroups strategy client rest (ainsert g { grp with clients := grp.clients ++ [client] } sh)
+
+/-- `subscription_map.entry(filter).or_default().insert(id)` -/
+def subscriptionMapAdd (m : List (String × List Nat)) (filter : String) (id : Nat) : List (String × List Nat) :=
+  match alookup filter m with
+  | some ids => ainsert filter (if ids.contains id then ids else ids ++ [id]) m
+  | none => m ++ [(filter, [id])]
 
 /-- `handle_new_connection` -/
 def handleNewConnection (s : RState) (spec : ConnectSpec) : M RState :=
@@ -435,7 +528,11 @@ def handleNewConnection (s : RState) (spec : ConnectSpec) : M RState :=
         brokerAliases := if spec.aliasMax > 0 then some (BrokerAliases.new spec.aliasMax) else none,
         out := { unackedPubrels := pending }, tracker := tracker }
     let (slab, id) := s.conns.insert conn
+    -- the subscriptions of a resumed session are entered into `subscription_map` under the new id
+    let s := { s with subscriptionMap := subs.foldl (fun m f => subscriptionMapAdd m f id) s.subscriptionMap }
     let s := { s with conns := slab, connectionMap := ainsert spec.clientId id s.connectionMap }
+    -- a resumed session takes its place in the groups of its shared subscriptions again
+    let s := { s with shared := rejoinGroups s.config.strategy spec.clientId tracker.requests s.shared }
     if !trackerNoDup tracker then .error (.panic "debug_assert check_tracker_duplicates (new connection)") else
     let acks := [Ack.connack id (!spec.clean && previousSession)] ++ pending.map Ack.pubrel
     let s := setConn s id { conn with acks := { committed := acks } }
@@ -530,15 +627,22 @@ def unsubscribeFilters (s : RState) (id : Nat) : List String → List Bool → M
         -- leave the group of this shared subscription only; drop the group if now empty
         let s := match extractGroup f with
           | none => s
-          | some (gname, _) =>
+          | some (gname, path) =>
             match alookup gname s.shared with
             | none => s
             | some g =>
               let g' := g.removeClient c.clientId
-              { s with shared := if g'.clients.isEmpty then aremove gname s.shared else ainsert gname g' s.shared }
+              if g'.clients.isEmpty then { s with shared := aremove gname s.shared }
+              else
+                -- the turn passed to another member: its log is remembered for the wake-up
+                let moved := if g'.current != g.current then (s.datalog.filterIdx? path).toList else []
+                { s with shared := ainsert gname g' s.shared, turnMoved := s.turnMoved ++ moved }
         let c := { c with brokerAliases := c.brokerAliases.map (fun b => BrokerAliases.removeAlias b f),
                           subscriptionIds := aremove f c.subscriptionIds }
         let c := { c with tracker := { c.tracker with requests := c.tracker.requests.filter (·.filter ≠ f) } }
+        -- unacknowledged publishes of the ended subscription no longer define a resume point,
+        -- unless the connection's other (plain / shared) subscription to the path still reads that log
+        let c := { c with out := unsubOut s.datalog c.subscriptions c.out f }
         let s := setConn s id c
         let s := { s with datalog := removeWaiterFor s.datalog id f }
         let s := { s with notifications := s.notifications.filter (fun n => !(n.1 == id && n.2.filter == f)) }
@@ -607,7 +711,7 @@ def handlePacket (s : RState) (id : Nat) (clientId : String) (pkt : Packet) (fl 
       match reschedule (((setConn s id c).g (.clientAcked id pkid)).g (.committed id (.pubrel pkid))) id .incomingAck with
       | .error e => .error e
       | .ok s => .ok (s, fl)
-  | .pubrel pkid false =>
+  | .pubrel pkid _ =>      -- with or without MQTT 5 properties
     match getConn s id with
     | none => .error (.panic "ackslog.get_mut(id).unwrap()")
     | some c =>
@@ -624,7 +728,6 @@ def handlePacket (s : RState) (id : Nat) (clientId : String) (pkt : Packet) (fl 
           match reschedule s id .incomingAck with
           | .error e => .error e
           | .ok s => .ok (s, { fl with newData := true })
-  | .pubrel _ true => .ok (s, fl)      -- `Packet::PubRel(pubrel, None)` only: with properties it is ignored
   | .pubcomp pkid =>
     match getConn s id with
     | none => .error (.panic "obufs.get_mut(id).unwrap()")
@@ -648,17 +751,6 @@ def handlePackets (s : RState) (id : Nat) (clientId : String) : List Packet → 
     | .error e => .error e
     | .ok (s, fl) => if fl.stop then .ok (s, fl) else handlePackets s id clientId rest fl
 
-/-- wake the parked consumers (`while let Some((id, request)) = self.notifications.pop_front()`) -/
-def drainNotifications (s : RState) : List (Nat × DataRequest) → M RState
-  | [] => .ok s
-  | (id, r) :: rest =>
-    match track s id r with
-    | .error e => .error e
-    | .ok s =>
-      match reschedule s id .freshData with
-      | .error e => .error e
-      | .ok s => drainNotifications s rest
-
 /-- `handle_device_payload(id)` -/
 def handleDevicePayload (s : RState) (id : Nat) : M RState :=
   match getConn s id with
@@ -677,7 +769,11 @@ def handleDevicePayload (s : RState) (id : Nat) : M RState :=
         let r2 := if fl.newData then drainNotifications { s with notifications := [] } s.notifications else .ok s
         match r2 with
         | .error e => .error e
-        | .ok s => if fl.disconnect then handleDisconnection s id fl.reason else .ok s
+        | .ok s =>
+          -- the member that holds the turn of a group this client left may be parked
+          match wakeTurnMoved s with
+          | .error e => .error e
+          | .ok s => if fl.disconnect then handleDisconnection s id fl.reason else .ok s
 
 /-! ### consume -/
 
@@ -691,8 +787,14 @@ def readRetained (s : RState) (filter : String) : M (RState × List Pub) :=
   | .retained order :: rest =>
     if sameMembers order expected then
       .ok ({ s with oracle := rest }, order.filterMap (fun t => alookup t s.datalog.retained))
-    else .error (.badChoice s!"retained order {order} is not a permutation of {expected}")
-  | _ => .error (.badChoice "expected a retained choice")
+    else .error (.badChoice (s!"retained order {order} is not a permutation of {expected}" ++ choiceHint s.oracle.length true ("retained" :: expected)))
+  | _ => .error (.badChoice ("expected a retained choice" ++ choiceHint s.oracle.length false ("retained" :: expected)))
+
+/-- the alias table `forward_device_data` consults for a subscription: broker aliases are keyed by
+    the filter and an alias stands for exactly one topic, so only filters without wildcards get
+    one (`protocol::has_wildcards(&request.filter)`) -/
+def aliasesFor (c : Conn) (filter : String) : Option BrokerAliases :=
+  if Topic.hasWildcards filter.toList then none else c.brokerAliases
 
 /-- construct the `Forward`s of one sweep -/
 def mkForward (qos : Nat) (alias : Option Nat) (aliasExisted : Bool) (subId : Option Nat) (p : Pub) : Pub :=
@@ -744,12 +846,13 @@ def forwardDeviceData (s : RState) (id : Nat) (req : DataRequest) : M (RState ×
         if skip then .ok (s, req, if caughtup then .filterCaughtup else .skipRequest) else
         let req := { req with cursor := next }
         if publishes.isEmpty then .ok (s, req, .filterCaughtup) else
-        -- broker topic aliases are keyed by the *filter*
-        let existing := c.brokerAliases.bind (fun b => alookup req.filter b.aliases)
+        -- broker topic aliases are keyed by the *filter* (see `aliasesFor`)
+        let aliases := aliasesFor c req.filter
+        let existing := aliases.bind (fun b => alookup req.filter b.aliases)
         let (ba, alias) := match existing with
           | some a => (c.brokerAliases, some a)
-          | none => match c.brokerAliases with
-            | none => (none, none)
+          | none => match aliases with
+            | none => (c.brokerAliases, none)
             | some b => let (b', a) := b.setNew req.filter; (some b', a)
         let subId := alookup req.filter c.subscriptionIds
         let fwds := publishes.map (fun pc => (mkForward req.qos alias existing.isSome subId pc.1, pc.2))
@@ -808,6 +911,14 @@ def park (s : RState) (id : Nat) (r : DataRequest) : M RState :=
     let native := s.datalog.native.set r.filterIdx { fd with waiters := fd.waiters ++ [(id, r)] }
     .ok { s with datalog := { s.datalog with native := native } }
 
+/-- after a sweep (`s0` before, `s1` after): when the request belongs to a shared group whose
+    turn passed to another member, the group's log is remembered for the wake-up at the end of
+    `consume` -/
+def noteTurn (s0 s1 : RState) (req : DataRequest) : RState :=
+  match req.group.bind (fun g => alookup g s0.shared), req.group.bind (fun g => alookup g s1.shared) with
+  | some g0, some g1 => if g1.current != g0.current then { s1 with turnMoved := s1.turnMoved ++ [req.filterIdx] } else s1
+  | _, _ => s1
+
 /-- the `for _ in 0..MAX_SCHEDULE_ITERATIONS` loop of `consume` -/
 def consumeLoop (s : RState) (id : Nat) : Nat → List DataRequest → List DataRequest → M RState
   | 0, requests, skipped => trackv s id (requests ++ skipped)
@@ -821,7 +932,8 @@ def consumeLoop (s : RState) (id : Nat) : Nat → List DataRequest → List Data
     | req :: rest =>
       match forwardDeviceData s id req with
       | .error e => .error e
-      | .ok (s, req, st) =>
+      | .ok (s1, req, st) =>
+        let s := noteTurn s s1 req
         match st with
         | .bufferFull =>
           match pause s id .busy with
@@ -854,7 +966,11 @@ def consume (s : RState) : M (RState × Bool) :=
       let s := ackDeviceData s id
       match consumeLoop s id MAX_SCHEDULE_ITERATIONS requests [] with
       | .error e => .error e
-      | .ok s => .ok (s, true)
+      | .ok s =>
+        -- the member that now holds the turn of a group served in this round may be parked
+        match wakeTurnMoved s with
+        | .error e => .error e
+        | .ok s => .ok (s, true)
 
 /-! ### will, shadow -/
 
